@@ -110,6 +110,19 @@ def run_case(case):
         elif name == 'gen_exhaust':
             for _ in slots[op[1]]:
                 pass
+        elif name == 'co_new':
+            slots[('co', t, op[1])] = coro(3)
+        elif name == 'co_step':
+            c = slots.get(('co', t, op[1]))
+            if c is not None:
+                try:
+                    c.send(None)
+                except (StopIteration, RuntimeError):
+                    pass
+        elif name == 'co_close':
+            c = slots.get(('co', t, op[1]))
+            if c is not None:
+                c.close()
         elif name == 'coro_run':
             c = coro(3)
             try:
